@@ -1,5 +1,6 @@
 SPECIFICATION Spec
 CONSTANTS
   Menus <- MenusGenT
+  FixSign = TRUE
 INVARIANTS Emit
 CHECK_DEADLOCK FALSE
